@@ -283,7 +283,9 @@ def intrinsic(r):
     budget = len(r["plan"]["attempts"])
     if r["attempts"] > budget:
         return "the remote handler ran %d times for one call, the retry budget is %d" % (r["attempts"], budget)
-    if r["class"] == "timeout" and r["attempts"] < budget and r.get("bkind") != "bad-responses":
+    if r["class"] == "timeout" and r["attempts"] < budget and r["plan"]["strict"] and r.get("bkind") != "bad-responses":
+        # (only for strict plans, whose timeouts are generous: in the racing batches a request can time out before it even
+        # reaches the remote handler, so the responder-side count may legitimately stay below the budget)
         return "the call ended with a timeout after %d attempts, the retry budget is %d" % (r["attempts"], budget)
     if r.get("bkind") == "bad-responses" and (r["class"] == "ok" or r.get("pay_kind") == "B"):
         return "a response for a procedure without a registered handler was delivered"
